@@ -22,7 +22,7 @@ CHECKS = {
          'RESP, decodes it with the real readNextMessage and applies every method of *RedisMessage, *RedisResult (reflection; 107 methods and functions in total '
          'incl. DecodeJSON, Cache*, String) plus DecodeSliceOfJSON and every *RedisError method (also on nested error elements) under '
          'recover; a panic, an outcome class outside the predicted one, a wrong error text or classifier result is a violation.',
-    design_ref='DESIGN.md 4.7, 5 C15; proposed/design_access.md',
+    design_ref='DESIGN.md 4.7, 5 C15; design/access.md',
     note='Exploration over model-generated shape classes, not all reply trees: quick 5.4k shapes (0.58M accessor applications), thorough '
          'larger alphabets / depth. Trusted: TLC, the JSON transport, the encoder (harness/fakeredis codec + hand-written streamed/attribute '
          'framing), the outcome classification in the driver (V/N/R/P/E by IsRedisNil, *RedisError, IsParseErr). Accessors the module has no '
@@ -42,7 +42,7 @@ CHECKS = {
          'all data within the bounds, checks the oracle invariants (RESP2 shapes use RESP2 types only, last value of a repeated field wins '
          '= sequential insertion, no two data of a class share a reply tree but not the result) and prints every case; accessdrv decodes '
          'each tree with the real decoder and compares every listed accessor on RedisMessage and RedisResult exactly (floats as n/2^k).',
-    design_ref='DESIGN.md 4.7, 5 C16; proposed/design_access.md',
+    design_ref='DESIGN.md 4.7, 5 C16; design/access.md',
     note='Bounded: lists/maps up to 3 (thorough 4) elements, 2 streams x 1-2 entries, 2 documents/rows/locations, 32-bit integers (TLC), floats '
          'exactly representable with finite decimal text (no inf/nan, no rounding), RESP2 FT.SEARCH only with non-numeric document names (the '
          'negative config shows the layout is ambiguous otherwise). nil and empty Go maps/slices are not distinguished. The RESP2/RESP3 layouts '
